@@ -433,6 +433,9 @@ func (r *rw) selectStmt(n *ast.SelectStmt) ast.Stmt {
 		}
 		clauses = append(clauses, &ast.CaseClause{List: []ast.Expr{&ast.BasicLit{Kind: token.INT, Value: strconv.Itoa(i)}}, Body: append(head, cc.Body...)})
 	}
+	// a select whose clauses all end in terminating statements is itself terminating; a switch is
+	// only if it has a default clause, so add an unreachable one (every real index has its own case)
+	clauses = append(clauses, &ast.CaseClause{List: nil, Body: []ast.Stmt{&ast.ExprStmt{X: call(id("panic"), &ast.BasicLit{Kind: token.STRING, Value: strconv.Quote("simrt: impossible select result")})}}})
 	sw := &ast.SwitchStmt{Tag: call(r.simrt("Select"), cases...), Body: &ast.BlockStmt{List: clauses}}
 	return &ast.BlockStmt{List: append(pre, sw)}
 }
